@@ -41,7 +41,8 @@ KIND_FILES = {
     "CDIMAGE": ("Disc.png", "x-cd.png", "x-cd2.png"),
     "MUSIC": ("Audio.bin", "song.OGG", "song.mp3x"),
 }
-STATES = ["absent", "emptysimfile", "empty", "exact", "othercase", "missing", "sub-othercase", "SUB-wrongcase", "nosuch"]
+STATES = ["absent", "emptysimfile", "empty", "exact", "othercase", "missing", "sub-othercase", "SUB-wrongcase", "nosuch", "spaced"]
+SPACED_PREFIX, SPACED_SUFFIX = " ", "　"  # a file whose real name begins with a blank and ends with U+3000
 
 
 class World:
@@ -155,6 +156,8 @@ def prop_value(kind, state):
         return "SUB/" + named
     if state == "nosuch":
         return "nosuch/" + named
+    if state == "spaced":
+        return SPACED_PREFIX + named + SPACED_SUFFIX
     raise core.MachineryError(state)
 
 
@@ -219,12 +222,14 @@ def property_tree(kind, state, extra):
             tree.setdefault("sub", {})[named] = b"x"
         elif e == "sub-empty":
             tree.setdefault("sub", {})
+        elif e == "named-spaced":
+            tree[SPACED_PREFIX + named + SPACED_SUFFIX] = b"x"
     v = prop_value(kind, state)
     props = {} if v is None else {PROP_OF[kind]: v}
     return tree, props
 
 
-EXTRAS = ["named", "hit", "miss", "sub-named", "sub-empty"]
+EXTRAS = ["named", "hit", "miss", "sub-named", "sub-empty", "named-spaced"]
 
 
 def explore_shard(acc, shard):
@@ -284,6 +289,8 @@ def explore_shard(acc, shard):
                                 acc.outcome("specified file found in another letter case")
                             if state in ("missing", "nosuch", "SUB-wrongcase"):
                                 acc.outcome("specified file missing: fall back to the pattern")
+                            if state == "spaced" and "named-spaced" in extra:
+                                acc.outcome("specified file whose name begins/ends with blanks")
                             if state == "emptysimfile":
                                 acc.outcome("completely empty simfile object given")
                             for f in fails:
@@ -346,6 +353,7 @@ def explore(run):
     core.require(acc.outcomes["specified file found in another letter case"] > 0, "case-insensitive hit never exercised")
     core.require(acc.outcomes["specified file missing: fall back to the pattern"] > 0, "fallback never exercised")
     core.require(acc.outcomes["completely empty simfile object given"] > 0, "empty simfile never given")
+    core.require(acc.outcomes["specified file whose name begins/ends with blanks"] > 0, "no blank-edged file name")
     core.require(acc.outcomes["banner beside the pack"] > 0, "no banner beside pack")
     return run.finish(
         states=acc.c["states"],
